@@ -178,7 +178,16 @@ def run(ctx):
             src = os.path.join(tmp, "info_fullres.json")
             with open(src, "w") as f:
                 json.dump(info0, f)
-            argv = ["generate-scales-info", src, tmp, "--target-chunk-size", str(2 ** rng.randrange(3, 7))]
+            target_cli = 2 ** rng.randrange(3, 7)
+            argv = ["generate-scales-info", src, tmp, "--target-chunk-size", str(target_cli)]
+            if rng.random() < 0.35:
+                # option omitted: the documented default (64) applies, whatever chunk sizes the input info carries
+                argv = argv[:3] + ["--max-scales", "0"] if rng.random() < 0.3 else argv[:3]
+                target_cli = 64
+                if rng.random() < 0.7:
+                    full["chunk_sizes"] = [rng.choice([[128, 128, 32], [32, 32, 32], [256, 256, 256], [64, 64, 16]])]
+                    with open(src, "w") as f:
+                        json.dump(info0, f)
             enc_arg = rng.choice([None, None, "raw", "compressed_segmentation", "jpeg"])
             if enc_arg:
                 argv += ["--encoding", enc_arg]
@@ -215,9 +224,12 @@ def run(ctx):
             # ---- the command run AGAIN on the same destination with another target chunk size: refused (the info is
             # kept as it is), or the info is the one a fresh destination would get for the new arguments ----
             if rng.random() < 0.3:
-                other = [t for t in ("8", "16", "32", "64") if t != argv[4]]
-                argv2 = list(argv)
-                argv2[4] = rng.choice(other)
+                other = [t for t in ("8", "16", "32", "64") if int(t) != target_cli]
+                if "--target-chunk-size" in argv:
+                    argv2 = list(argv)
+                    argv2[argv2.index("--target-chunk-size") + 1] = rng.choice(other)
+                else:
+                    argv2 = list(argv) + ["--target-chunk-size", rng.choice(other)]
                 before_bytes = open(os.path.join(tmp, "info"), "rb").read()
                 try:
                     rc2 = generate_scales_info.main(argv2)
@@ -242,6 +254,9 @@ def run(ctx):
                                         "info survive)", dict(desc, second_argv=argv2[3:]))
                 elif after_bytes != before_bytes:
                     ctx.oracle_fail("a refused second generate-scales-info changed the existing info", dict(desc, second_argv=argv2[3:]))
+            # the structural clauses (sizes, chunk sizes about the target, last scale within two chunks) for the info
+            # the COMMAND wrote, with the target it was given or the documented default
+            check_info(ctx, out, full, target_cli, None, dict(desc, target_chunk_size=target_cli))
             final_enc = out["scales"][0]["encoding"]
             if final_enc != (enc_arg or enc_in or "raw"):
                 ctx.oracle_fail("the generated info does not carry the requested encoding (--encoding, else the input "
